@@ -1159,6 +1159,424 @@ theorem parse_append : ∀ (a : Bytes) (i : Bool) (d : Bytes) (i' : Bool) (b : B
           omega
         · rw [if_neg h1] at hp; simp at hp
 
+def DecR (s : Dec) (u v : Bytes) : Prop :=
+  s.bad = false ∧ parse false u = (u.length, v ++ s.q, s.inData, s.done, false) ∧ s.fresh = decide (u = [])
+
+def decPend (s : Dec) : Nat := s.q.length + (if s.fresh then 0 else 1)
+
+theorem DecR_facts {s : Dec} {u v w x : Bytes} (hR : DecR s u v) (hd : decode (u ++ w) = some x) :
+    IsPre (v ++ s.q) x ∧ (s.done = true → w = [] ∧ v ++ s.q = x) ∧ (s.done = false → w ≠ []) := by
+  obtain ⟨_, hp, _⟩ := hR
+  by_cases hw : w = []
+  · subst hw
+    rw [List.append_nil] at hd
+    have := parse_whole u false x (by simpa [decodeFrom] using hd)
+    rw [this] at hp
+    simp only [Prod.mk.injEq] at hp
+    obtain ⟨_, h2, _, h4, _⟩ := hp
+    exact ⟨by rw [← h2]; exact IsPre.refl _, fun _ => ⟨rfl, h2.symm⟩, fun h => (by rw [← h4] at h; cases h)⟩
+  · have hk : u.length < (u ++ w).length := by
+      cases w with
+      | nil => exact absurd rfl hw
+      | cons a b => simp
+    obtain ⟨d, i', hpp, hpre⟩ := parse_prefix (u ++ w) false x u.length (by simpa [decodeFrom] using hd) hk
+    rw [List.take_left' rfl, hp] at hpp
+    simp only [Prod.mk.injEq] at hpp
+    obtain ⟨_, h2, _, h4, _⟩ := hpp
+    exact ⟨by rw [h2]; exact hpre, fun h => (by rw [h4] at h; cases h), fun _ => hw⟩
+
+/-- what the parser does with a chunk offered inside a valid member -/
+theorem chunk_parse {s : Dec} {u v w x : Bytes} (hR : DecR s u v) (hd : decode (u ++ w) = some x)
+    (hnd : s.done = false) (chunk tail : Bytes) (hc : IsPre chunk (w ++ tail)) :
+    ∃ d i', parse s.inData chunk = (min chunk.length w.length, d, i', decide (w.length ≤ chunk.length), false) ∧
+      parse false (u ++ chunk.take (min chunk.length w.length)) =
+        (u.length + min chunk.length w.length, (v ++ s.q) ++ d, i', decide (w.length ≤ chunk.length), false) ∧
+      IsPre ((v ++ s.q) ++ d) x ∧ (w.length ≤ chunk.length → (v ++ s.q) ++ d = x) := by
+  obtain ⟨_, hp, _⟩ := hR
+  rw [hnd] at hp
+  obtain ⟨z, hz⟩ := hc
+  by_cases hlt : chunk.length < w.length
+  · -- the chunk ends inside the member
+    have hmin : min chunk.length w.length = chunk.length := by omega
+    have hcw : chunk = w.take chunk.length := by
+      have := congrArg (List.take chunk.length) hz
+      rw [List.take_append_of_le_length (by omega), List.take_left' rfl] at this
+      exact this.symm
+    have hk : u.length + chunk.length < (u ++ w).length := by simp; omega
+    obtain ⟨d', i'', hpp, hpre⟩ := parse_prefix (u ++ w) false x (u.length + chunk.length) (by simpa [decodeFrom] using hd) hk
+    have htk : (u ++ w).take (u.length + chunk.length) = u ++ chunk := by
+      rw [List.take_append, List.take_of_length_le (by omega)]
+      congr 1
+      rw [show u.length + chunk.length - u.length = chunk.length by omega]
+      exact hcw.symm
+    rw [htk, parse_append u false _ _ chunk hp] at hpp
+    rcases hpc : parse s.inData chunk with ⟨c, dd, ii, dn, bd⟩
+    rw [hpc] at hpp
+    simp only [Prod.mk.injEq, Nat.add_left_cancel_iff] at hpp
+    obtain ⟨rfl, rfl, rfl, rfl, rfl⟩ := hpp
+    have hdec : decide (w.length ≤ chunk.length) = false := by simp; omega
+    refine ⟨dd, ii, by rw [hmin, hdec], ?_, hpre, fun h => by omega⟩
+    rw [hmin, List.take_length, parse_append u false _ _ chunk hp, hpc, hdec]
+  · -- the chunk covers the rest of the member
+    have hle : w.length ≤ chunk.length := by omega
+    have hmin : min chunk.length w.length = w.length := by omega
+    have hcw : chunk.take w.length = w := by
+      have := congrArg (List.take w.length) hz
+      rw [List.take_left' rfl, List.take_append_of_le_length hle] at this
+      exact this.symm
+    have hwhole := parse_whole (u ++ w) false x (by simpa [decodeFrom] using hd)
+    rw [parse_append u false _ _ w hp] at hwhole
+    rcases hpw : parse s.inData w with ⟨c, dd, ii, dn, bd⟩
+    rw [hpw] at hwhole
+    simp only [Prod.mk.injEq, List.length_append, Nat.add_left_cancel_iff] at hwhole
+    obtain ⟨rfl, hx, rfl, rfl, rfl⟩ := hwhole
+    have hdec : decide (w.length ≤ chunk.length) = true := by simp; omega
+    have hch : chunk = w ++ chunk.drop w.length := by
+      conv => lhs; rw [← List.take_append_drop w.length chunk, hcw]
+    refine ⟨dd, false, ?_, ?_, by rw [hx]; exact IsPre.refl _, fun _ => hx⟩
+    · rw [hmin, hdec, hch, parse_done_append w s.inData dd false _ hpw]
+    · rw [hmin, hcw, hdec, parse_append u false _ _ w hp, hpw, hx]
+
+theorem decCore_done (P : Params) {s : Dec} (inp : Bytes) (room : Nat) (h : s.done = true) :
+    decCore P s inp room = ⟨0, s.q, min (min room (P.gran + 1)) s.q.length, s.inData, s.fresh, true, false⟩ := by
+  simp [decCore, h]
+
+theorem decCore_blocked (P : Params) {s : Dec} (inp : Bytes) (room : Nat) (h : s.done = false) (hq : ¬ s.q.length ≤ P.thresh) :
+    decCore P s inp room = ⟨0, s.q, min (min room (P.gran + 1)) s.q.length, s.inData, s.fresh, false, false⟩ := by
+  simp [decCore, h, hq]
+
+theorem decCore_absorb (P : Params) {s : Dec} (inp : Bytes) (room : Nat) (h : s.done = false) (hq : s.q.length ≤ P.thresh)
+    {n : Nat} {d : Bytes} {i' dn bd : Bool} (hp : parse s.inData (inp.take (P.absorb + 1)) = (n, d, i', dn, bd)) :
+    decCore P s inp room = ⟨n, s.q ++ d, min (min room (P.gran + 1)) (s.q ++ d).length, i',
+      s.fresh && decide (n = 0), dn, bd⟩ := by
+  simp [decCore, h, hq, hp]
+
+/-- everything the contract needs to know about one call of the decoding engine inside a valid member -/
+theorem decCore_spec (P : Params) {s : Dec} {u v w x : Bytes} (hR : DecR s u v) (hd : decode (u ++ w) = some x)
+    (inp tail : Bytes) (hin : IsPre inp (w ++ tail)) (room : Nat) :
+    (decCore P s inp room).bad = false ∧ (decCore P s inp room).n ≤ inp.length ∧ (decCore P s inp room).n ≤ w.length ∧
+    parse false (u ++ inp.take (decCore P s inp room).n) =
+      (u.length + (decCore P s inp room).n, v ++ (decCore P s inp room).q, (decCore P s inp room).inData,
+        (decCore P s inp room).done, false) ∧
+    IsPre (v ++ (decCore P s inp room).q) x ∧
+    ((decCore P s inp room).done = true ↔ (decCore P s inp room).n = w.length) ∧
+    ((decCore P s inp room).done = true → v ++ (decCore P s inp room).q = x) ∧
+    (decCore P s inp room).fresh = (s.fresh && decide ((decCore P s inp room).n = 0)) ∧
+    (decCore P s inp room).m = min (min room (P.gran + 1)) (decCore P s inp room).q.length ∧
+    ((decCore P s inp room).n = 0 → (decCore P s inp room).q = s.q) ∧
+    (s.done = false → s.q.length ≤ P.thresh → inp ≠ [] → 0 < (decCore P s inp room).n) ∧
+    (s.done = true → (decCore P s inp room).done = true) := by
+  obtain ⟨hfacts1, hfacts2, hfacts3⟩ := DecR_facts hR hd
+  have hp := hR.2.1
+  cases hdn : s.done with
+  | true =>
+    obtain ⟨hw, hx⟩ := hfacts2 hdn
+    subst hw
+    rw [decCore_done P inp room hdn]
+    rw [hdn] at hp
+    refine ⟨rfl, Nat.zero_le _, Nat.le_refl _, by simpa using hp, hfacts1, by simp, fun _ => hx, by simp, rfl, fun _ => rfl,
+      fun h => (by cases h), fun _ => rfl⟩
+  | false =>
+    have hw := hfacts3 hdn
+    by_cases hq : s.q.length ≤ P.thresh
+    · have hchunk : IsPre (inp.take (P.absorb + 1)) (w ++ tail) := (IsPre.take _ _).trans hin
+      obtain ⟨d, i', hpc, hpu, hpre, hfull⟩ := chunk_parse hR hd hdn _ tail hchunk
+      rw [decCore_absorb P inp room hdn hq hpc]
+      have hnl : min (inp.take (P.absorb + 1)).length w.length ≤ inp.length := by
+        simp only [List.length_take]; omega
+      have htake : (inp.take (P.absorb + 1)).take (min (inp.take (P.absorb + 1)).length w.length) =
+          inp.take (min (inp.take (P.absorb + 1)).length w.length) := by
+        rw [List.take_take]; congr 1; simp only [List.length_take]; omega
+      rw [htake] at hpu
+      refine ⟨rfl, hnl, Nat.min_le_right _ _, by simpa [List.append_assoc] using hpu, by simpa [List.append_assoc] using hpre,
+        ?_, ?_, rfl, rfl, ?_, ?_, fun h => (by cases h)⟩
+      · simp only [decide_eq_true_eq]; omega
+      · intro h
+        simp only [decide_eq_true_eq] at h
+        simpa [List.append_assoc] using hfull h
+      · intro h0
+        simp only at h0
+        -- nothing consumed: nothing decoded
+        have hw0 : 0 < w.length := by
+          cases w with
+          | nil => exact absurd rfl hw
+          | cons a b => simp
+        have hc0 : (inp.take (P.absorb + 1)).length = 0 := by omega
+        have : inp.take (P.absorb + 1) = [] := List.eq_nil_of_length_eq_zero hc0
+        rw [this, parse_nil] at hpc
+        simp only [Prod.mk.injEq] at hpc
+        rw [← hpc.2.1]; simp
+      · intro _ _ hne
+        have hw0 : 0 < w.length := by
+          cases w with
+          | nil => exact absurd rfl hw
+          | cons a b => simp
+        have : 0 < inp.length := by
+          cases inp with
+          | nil => exact absurd rfl hne
+          | cons a b => simp
+        simp only [List.length_take]; omega
+    · rw [decCore_blocked P inp room hdn hq]
+      rw [hdn] at hp
+      have hw0 : 0 < w.length := by
+        cases w with
+        | nil => exact absurd rfl hw
+        | cons a b => simp
+      refine ⟨rfl, Nat.zero_le _, Nat.zero_le _, by simpa using hp, hfacts1, ?_, fun h => (by cases h), by simp, rfl, fun _ => rfl,
+        fun _ h => absurd h hq, fun h => (by cases h)⟩
+      constructor
+      · intro h; cases h
+      · intro h; simp only at h; omega
+
+theorem decStep_room0 (P : Params) (s : Dec) (inp : Bytes) (fl : Flush) :
+    decStep P s inp 0 fl = ⟨s, 0, [], Res.ok⟩ := by simp [decStep]
+
+/-- `decStep` in terms of the engine's quantities `c` -/
+def decFinish (s : Dec) (c : Core) (inp : Bytes) (room : Nat) (fl : Flush) : StepOut Dec :=
+  if c.done && decide ((c.q.drop c.m).length = 0) then ⟨decFresh, c.n, c.q.take c.m, Res.streamEnd⟩
+  else if decide (fl = Flush.full) && decide (c.n = inp.length) && decide (c.m = 0) then
+    if c.fresh then ⟨decFresh, c.n, [], Res.streamEnd⟩
+    else ⟨⟨c.q.drop c.m, c.inData, c.fresh, c.done, true⟩, c.n, [], Res.error⟩
+  else if decide (0 < (c.q.drop c.m).length) && decide (c.m = room) then
+    ⟨⟨c.q.drop c.m, c.inData, c.fresh, c.done, false⟩, c.n, c.q.take c.m, Res.bufferFull⟩
+  else ⟨⟨c.q.drop c.m, c.inData, c.fresh, c.done, false⟩, c.n, c.q.take c.m, Res.ok⟩
+
+theorem decStep_eq (P : Params) {s : Dec} (inp : Bytes) {room : Nat} (fl : Flush) (hr : 0 < room) (hb : s.bad = false)
+    (hcb : (decCore P s inp room).bad = false) :
+    decStep P s inp room fl = decFinish s (decCore P s inp room) inp room fl := by
+  have : ¬ room = 0 := by omega
+  simp only [decStep, this, hb, hcb, decFinish, if_false, Bool.false_eq_true]
+
+theorem DecR_fresh : DecR decFresh [] [] := ⟨rfl, by simp [decFresh, parse_nil], by simp [decFresh]⟩
+
+theorem drop_take_len {q : Bytes} {m : Nat} (h : (q.drop m).length = 0) : q.take m = q := by
+  have := List.take_append_drop m q
+  rw [List.eq_nil_of_length_eq_zero h, List.append_nil] at this
+  exact this
+
+theorem pre_take {v q x : Bytes} (m : Nat) (h : IsPre (v ++ q) x) : IsPre (v ++ q.take m) x := by
+  obtain ⟨z, hz⟩ := h
+  refine ⟨q.drop m ++ z, ?_⟩
+  rw [hz, List.append_assoc v, List.append_assoc v, ← List.append_assoc (q.take m), List.take_append_drop]
+
+/-- the toy decoder meets the decoder contract, for every setting of its knobs -/
+def decContract (P : Params) : DecContract (decoder P) decode where
+  R := DecR
+  pend := decPend
+  init := DecR_fresh
+  dec_nil := by simp [decode]
+  valid := by
+    intro s u v w x tail inp room fl hR hd hin hfl
+    show (decStep P s inp room fl).res ≠ Res.error ∧ (decStep P s inp room fl).consumed ≤ inp.length ∧
+      (decStep P s inp room fl).consumed ≤ w.length ∧ (decStep P s inp room fl).out.length ≤ room ∧
+      IsPre (v ++ (decStep P s inp room fl).out) x ∧
+      ((decStep P s inp room fl).res = Res.streamEnd →
+        (decStep P s inp room fl).consumed = w.length ∧ v ++ (decStep P s inp room fl).out = x ∧ DecR (decStep P s inp room fl).st [] []) ∧
+      ((decStep P s inp room fl).res ≠ Res.streamEnd →
+        DecR (decStep P s inp room fl).st (u ++ inp.take (decStep P s inp room fl).consumed) (v ++ (decStep P s inp room fl).out)) ∧
+      ((decStep P s inp room fl).res = Res.bufferFull → (decStep P s inp room fl).out ≠ [])
+    obtain ⟨hq0, _, _⟩ := DecR_facts hR hd
+    by_cases hr : 0 < room
+    · obtain ⟨c1, c2, c3, c4, c5, c6, c7, c8, c9, _, _, _⟩ := decCore_spec P hR hd inp tail hin room
+      rw [decStep_eq P inp fl hr hR.1 c1]
+      generalize decCore P s inp room = c at *
+      have hml : c.m ≤ room := by rw [c9]; omega
+      have htl : (c.q.take c.m).length ≤ room := by rw [List.length_take]; omega
+      have hpre : IsPre (v ++ c.q.take c.m) x := by
+        exact pre_take c.m c5
+      have hkeep : ∀ bd : Bool, bd = false → DecR ⟨c.q.drop c.m, c.inData, c.fresh, c.done, bd⟩ (u ++ inp.take c.n) (v ++ c.q.take c.m) := by
+        intro bd hbd
+        refine ⟨hbd, ?_, ?_⟩
+        · simp only [List.length_append, List.length_take, Nat.min_eq_left c2, List.append_assoc, List.take_append_drop]
+          exact c4
+        · simp only [c8, hR.2.2]
+          by_cases hu : u = []
+          · by_cases hn : c.n = 0
+            · simp [hu, hn]
+            · have : inp.take c.n ≠ [] := by
+                intro h; have := congrArg List.length h; simp only [List.length_take, List.length_nil] at this; omega
+              simp [hu, hn, this]
+          · simp [hu]
+      unfold decFinish
+      by_cases h1 : (c.done && decide ((c.q.drop c.m).length = 0)) = true
+      · rw [if_pos h1]
+        simp only [Bool.and_eq_true, decide_eq_true_eq] at h1
+        obtain ⟨hdone, hdrop⟩ := h1
+        refine ⟨by simp, c2, c3, htl, hpre, fun _ => ⟨c6.1 hdone, by rw [drop_take_len hdrop]; exact c7 hdone, DecR_fresh⟩,
+          fun h => absurd rfl h, fun h => (by cases h)⟩
+      · rw [if_neg h1]
+        by_cases h2 : (decide (fl = Flush.full) && decide (c.n = inp.length) && decide (c.m = 0)) = true
+        · exfalso
+          simp only [Bool.and_eq_true, decide_eq_true_eq] at h2
+          obtain ⟨⟨hfull, hn⟩, hm⟩ := h2
+          have hwl := hfl hfull
+          have hdone : c.done = true := c6.2 (by omega)
+          have hq : c.q.length = 0 := by rw [c9] at hm; omega
+          apply h1
+          simp [hdone, List.length_drop, hq]
+        · rw [if_neg h2]
+          by_cases h3 : (decide (0 < (c.q.drop c.m).length) && decide (c.m = room)) = true
+          · rw [if_pos h3]
+            simp only [Bool.and_eq_true, decide_eq_true_eq] at h3
+            refine ⟨by simp, c2, c3, htl, hpre, fun h => (by cases h), fun _ => hkeep false rfl, fun _ => ?_⟩
+            intro h
+            have := congrArg List.length h
+            simp only [List.length_take, List.length_nil, List.length_drop] at this h3
+            omega
+          · rw [if_neg h3]
+            exact ⟨by simp, c2, c3, htl, hpre, fun h => (by cases h), fun _ => hkeep false rfl, fun h => (by cases h)⟩
+    · have : room = 0 := by omega
+      subst this
+      rw [decStep_room0]
+      refine ⟨by simp, Nat.zero_le _, Nat.zero_le _, by simp, ?_, fun h => (by cases h), fun _ => ?_, fun h => (by cases h)⟩
+      · obtain ⟨z, hz⟩ := hq0
+        exact ⟨s.q ++ z, by simp [hz, List.append_assoc]⟩
+      · simpa using hR
+  progress := by
+    intro s u v w x tail inp room fl hR hd hin hfl hr hne
+    show 0 < (decStep P s inp room fl).consumed ∨ decPend (decStep P s inp room fl).st < decPend s
+    obtain ⟨_, hq2, _⟩ := DecR_facts hR hd
+    obtain ⟨c1, c2, c3, c4, c5, c6, c7, c8, c9, c10, c11, c12⟩ := decCore_spec P hR hd inp tail hin room
+    rw [decStep_eq P inp fl hr hR.1 c1]
+    generalize decCore P s inp room = c at *
+    by_cases hn : 0 < c.n
+    · left; unfold decFinish; split
+      · exact hn
+      · split
+        · split <;> exact hn
+        · split <;> exact hn
+    · right
+      have hn0 : c.n = 0 := by omega
+      have hcq := c10 hn0
+      have hfr : c.fresh = s.fresh := by rw [c8, hn0]; simp
+      -- nothing consumed: the queue is not empty, or the member is complete
+      have hcase : s.done = true ∨ 0 < s.q.length := by
+        cases hdn : s.done with
+        | true => left; rfl
+        | false =>
+          right
+          by_cases hq : s.q.length ≤ P.thresh
+          · have := c11 hdn hq hne; omega
+          · omega
+      have hnf : s.done = true → s.fresh = false := by
+        intro h
+        have hu : u ≠ [] := by
+          intro hu
+          obtain ⟨hw, _⟩ := hq2 h
+          subst hu hw
+          simp [decode] at hd
+        rw [hR.2.2]; simp [hu]
+      have hm1 : 0 < s.q.length → 0 < c.m := by
+        intro h; rw [c9, hcq]; omega
+      unfold decFinish decPend
+      by_cases h1 : (c.done && decide ((c.q.drop c.m).length = 0)) = true
+      · rw [if_pos h1]
+        simp only [Bool.and_eq_true] at h1
+        simp only [decFresh, List.length_nil, if_true]
+        rcases hcase with h | h
+        · rw [hnf h]; simp
+        · omega
+      · rw [if_neg h1]
+        by_cases h2 : (decide (fl = Flush.full) && decide (c.n = inp.length) && decide (c.m = 0)) = true
+        · exfalso
+          simp only [Bool.and_eq_true, decide_eq_true_eq] at h2
+          have : inp.length = 0 := by omega
+          exact hne (List.eq_nil_of_length_eq_zero this)
+        · rw [if_neg h2]
+          have hlt : (c.q.drop c.m).length + (if c.fresh then 0 else 1) < s.q.length + (if s.fresh then 0 else 1) := by
+            rw [hfr, List.length_drop, hcq]
+            rcases hcase with h | h
+            · by_cases hq0 : 0 < s.q.length
+              · have := hm1 hq0; omega
+              · exfalso
+                apply h1
+                have hq00 : s.q.length = 0 := by omega
+                simp [c12 h, List.length_drop, hcq, hq00]
+            · have := hm1 h; omega
+          split <;> exact hlt
+  drain := by
+    intro s u v x room hR hd hr
+    show (decStep P s [] room Flush.full).out ≠ [] ∨ (decStep P s [] room Flush.full).res = Res.streamEnd
+    have hd' : decode (u ++ []) = some x := by simpa using hd
+    obtain ⟨_, hq2, hq3⟩ := DecR_facts hR hd'
+    have hdone : s.done = true := by
+      cases h : s.done with
+      | true => rfl
+      | false => exact absurd rfl (hq3 h)
+    have hc := decCore_done P [] room hdone
+    rw [decStep_eq P [] Flush.full hr hR.1 (by rw [hc]), hc]
+    unfold decFinish
+    by_cases hq : s.q.length = 0
+    · right
+      simp [hq]
+    · left
+      have hm : 0 < min (min room (P.gran + 1)) s.q.length := by omega
+      have hne : s.q.take (min (min room (P.gran + 1)) s.q.length) ≠ [] := by
+        intro h; have := congrArg List.length h; simp only [List.length_take, List.length_nil] at this; omega
+      simp only
+      split
+      · exact hne
+      · split
+        · rename_i h2
+          simp only [Bool.and_eq_true, decide_eq_true_eq] at h2
+          omega
+        · split <;> exact hne
+  idle_eof := by
+    intro s room hR hr
+    show (decStep P s [] room Flush.full).res ≠ Res.error ∧ (decStep P s [] room Flush.full).out = [] ∧
+      (decStep P s [] room Flush.full).consumed = 0 ∧ DecR (decStep P s [] room Flush.full).st [] []
+    obtain ⟨hb, hp, hf⟩ := hR
+    rw [parse_nil] at hp
+    simp only [Prod.mk.injEq, List.length_nil, List.nil_append, true_and] at hp
+    obtain ⟨hq, hi, hdn, _⟩ := hp
+    have hc : decCore P s [] room = ⟨0, [], 0, false, true, false, false⟩ := by
+      simp [decCore, ← hq, ← hdn, ← hi, hf, parse_nil]
+    rw [decStep_eq P [] Flush.full hr hb (by rw [hc]), hc]
+    simp [decFinish, DecR_fresh]
+  truncated := by
+    intro s u v w x room hR hu hw hd hr
+    obtain ⟨hq1, _, _⟩ := DecR_facts hR hd
+    obtain ⟨c1, c2, c3, c4, c5, c6, c7, c8, c9, c10, _, _⟩ := decCore_spec P hR hd [] w (IsPre.nil _) room
+    show (decStep P s [] room Flush.full).res = Res.error ∨
+      ((decStep P s [] room Flush.full).res ≠ Res.streamEnd ∧ (decStep P s [] room Flush.full).out ≠ [] ∧
+       (decStep P s [] room Flush.full).consumed = 0 ∧ (decStep P s [] room Flush.full).out.length ≤ room ∧
+       IsPre (v ++ (decStep P s [] room Flush.full).out) x ∧
+       DecR (decStep P s [] room Flush.full).st u (v ++ (decStep P s [] room Flush.full).out))
+    rw [decStep_eq P [] Flush.full hr hR.1 c1]
+    generalize decCore P s [] room = c at *
+    have hn0 : c.n = 0 := by simpa using c2
+    have hw0 : 0 < w.length := by
+      cases w with
+      | nil => exact absurd rfl hw
+      | cons a b => simp
+    have hnd : c.done = false := by
+      cases h : c.done with
+      | false => rfl
+      | true => have := c6.1 h; omega
+    have hfr : c.fresh = false := by rw [c8, hR.2.2]; simp [hu]
+    unfold decFinish
+    rw [if_neg (by simp [hnd])]
+    by_cases hm : c.m = 0
+    · left
+      simp [hn0, hm, hfr]
+    · right
+      have hne : c.q.take c.m ≠ [] := by
+        intro h; have := congrArg List.length h
+        simp only [List.length_take, List.length_nil] at this
+        rw [c9] at hm this; omega
+      have htl : (c.q.take c.m).length ≤ room := by rw [List.length_take, c9]; omega
+      have hpre : IsPre (v ++ c.q.take c.m) x := by
+        exact pre_take c.m c5
+      have hkeep : DecR ⟨c.q.drop c.m, c.inData, c.fresh, c.done, false⟩ u (v ++ c.q.take c.m) := by
+        refine ⟨rfl, ?_, ?_⟩
+        · simp only [List.append_assoc, List.take_append_drop]
+          simpa [hn0] using c4
+        · simp [hfr, hu]
+      rw [if_neg (by simp [hm])]
+      split
+      · exact ⟨by simp, hne, hn0, htl, hpre, hkeep⟩
+      · exact ⟨by simp, hne, hn0, htl, hpre, hkeep⟩
+
 end Toy
 
 end Sqfs.Xfrm
